@@ -8,7 +8,11 @@ sensitivity run with the pre-repair accounting (buffered data not counted)
 must violate NeverAcceptBeyondGrant.  Behaviours (honest and rogue) are
 replayed into a real pair with step-by-step state comparison; a raw peer
 drives a real server with extreme window / packet-size values and with data
-beyond the advertised window."""
+beyond the advertised window.  In the other direction, executions recorded
+from naturally scheduled sessions (writer / reader tasks, self-pausing
+sessions, random segmentation and stalls) are validated by TLC against the
+same spec (specs/Channel/ChannelTrace.tla), every invariant evaluated in
+every recorded state, with binding controls."""
 
 from checks import chan_common as cc
 from harness.framework import run_check
@@ -52,6 +56,8 @@ def main(ctx):
     ]
     cc.replay_all(ctx, 'C08', 'c08', sims, ctx.seed + 11)
 
+    # ---- code -> spec: recorded natural executions validated by TLC ----
+    cc.trace_validation(ctx, 'C08', quick)
     # ---- raw peer: extreme values, peer ignoring the window ----
     from harness.drivers import chan_raw
     values = (0, 1, 2, 0xffffffff) if quick else \
